@@ -95,26 +95,37 @@ def check_case(res, case):
         lsim.assign_codes(ls, pos, wsim.code8(init[k], fin[k]))
     ls.s_to_c(); ls.c_prop(); ls.c_to_s()
     sigv = []
-    for j, pos in enumerate(opos + spos):
-        code = lsim.read_codes(ls, 1, pos, n, 3)
-        sigv.append(code.tobytes())
-        if np.any((code == 1) | (code == 2)):
-            res.violation(key + f'/unknown-{j}', case, f'8-valued result unknown although all inputs are known {nl}'); continue
-        li, lf = (code >> 1) & 1, code & 1
-        s3, s6 = (ws.s[3, pos, :n] != 0).astype(np.uint8), (ws.s[6, pos, :n] != 0).astype(np.uint8)
-        if not np.array_equal(s3, li):
-            lane = int(np.flatnonzero(s3 != li)[0])
-            res.violation(key + f'/initial-{j}', case, f'output {j} lane {lane}: timing initial value {s3[lane]}, 8-valued logic {ref.CHARS[int(code[lane])]} {nl}')
-        if not np.array_equal(s6, lf):
-            lane = int(np.flatnonzero(s6 != lf)[0])
-            res.violation(key + f'/final-{j}', case, f'output {j} lane {lane}: timing final value {s6[lane]}, 8-valued logic {ref.CHARS[int(code[lane])]} {nl}')
-        const = (code == 0) | (code == 3)
-        bad = const & ((ws.s[4, pos, :n] != TMAX) | (ws.s[5, pos, :n] != TMIN))
-        if np.any(bad):
-            lane = int(np.flatnonzero(bad)[0])
-            res.violation(key + f'/hazard-{j}', case, f'output {j} lane {lane}: 8-valued logic says hazard-free {ref.CHARS[int(code[lane])]} but timing simulation has transitions in [{ws.s[4, pos, lane]}, {ws.s[5, pos, lane]}] {nl}')
-        res.count('const_lanes', int(const.sum()))
-        res.count('active_lanes', int((~const).sum()))
+    def compare(tag):
+        for j, pos in enumerate(opos + spos):
+            code = lsim.read_codes(ls, 1, pos, n, 3)
+            sigv.append(code.tobytes())
+            if np.any((code == 1) | (code == 2)):
+                res.violation(key + tag + f'/unknown-{j}', case, f'8-valued result unknown although all inputs are known {nl}'); continue
+            li, lf = (code >> 1) & 1, code & 1
+            s3, s6 = (ws.s[3, pos, :n] != 0).astype(np.uint8), (ws.s[6, pos, :n] != 0).astype(np.uint8)
+            if not np.array_equal(s3, li):
+                lane = int(np.flatnonzero(s3 != li)[0])
+                res.violation(key + tag + f'/initial-{j}', case, f'output {j} lane {lane}: timing initial value {s3[lane]}, 8-valued logic {ref.CHARS[int(code[lane])]} {nl}')
+            if not np.array_equal(s6, lf):
+                lane = int(np.flatnonzero(s6 != lf)[0])
+                res.violation(key + tag + f'/final-{j}', case, f'output {j} lane {lane}: timing final value {s6[lane]}, 8-valued logic {ref.CHARS[int(code[lane])]} {nl}')
+            const = (code == 0) | (code == 3)
+            bad = const & ((ws.s[4, pos, :n] != TMAX) | (ws.s[5, pos, :n] != TMIN))
+            if np.any(bad):
+                lane = int(np.flatnonzero(bad)[0])
+                res.violation(key + tag + f'/hazard-{j}', case, f'output {j} lane {lane}: 8-valued logic says hazard-free {ref.CHARS[int(code[lane])]} but timing simulation has transitions in [{ws.s[4, pos, lane]}, {ws.s[5, pos, lane]}] {nl}')
+            res.count('const_lanes', int(const.sum()))
+            res.count('active_lanes', int((~const).sum()))
+
+    compare('')
+    if nl.states and T is None:
+        # a second clock cycle: both simulators derive the new state-element stimulus themselves (previous final value ->
+        # newly captured value, at time 0), the primary inputs repeat their transitions
+        ws.s_ppo_to_ppi(); ls.s_ppo_to_ppi()
+        ws.s_to_c(); ws.c_prop(); ws.c_to_s()
+        ls.s_to_c(); ls.c_prop(); ls.c_to_s()
+        compare('/cycle2')
+        res.count('second_cycles')
     if not w_reuse and not l_reuse:
         # every internal line: both simulators hold it
         for l in c.lines:
@@ -132,7 +143,7 @@ def check_case(res, case):
 
 
 def finish(agg, tier):
-    need = ['const_lanes', 'active_lanes', 'full_line_checks', 'cases_with_history']
+    need = ['const_lanes', 'active_lanes', 'full_line_checks', 'cases_with_history', 'second_cycles']
     missing = [k for k in need if not agg.counters.get(k)]
     if missing: raise common.HarnessError(f'vacuity guard: {missing} zero')
     return {}
